@@ -31,7 +31,7 @@ Proof.
   intros H. rewrite kinds_of_find.
   destruct (Pos.ltb_spec (N.succ_pos (N.of_nat k)) 1) as [L|L]; [lia|].
   replace (Pos.to_nat (N.succ_pos (N.of_nat k)) - Pos.to_nat 1)%nat with k; [rewrite H; reflexivity|].
-  destruct k; cbn; [reflexivity|]. rewrite SuccNat2Pos.id_succ. lia.
+  destruct k; cbn; [reflexivity|]. rewrite Pos2Nat.inj_succ, SuccNat2Pos.id_succ. lia.
 Qed.
 
 (* ------------------------------------------------------------------ constants *)
@@ -81,7 +81,7 @@ Proof.
     - destruct C; cbn [at_e through_pure_e] in *; cbn [ectx_size] in Hn;
         try (apply He; exact Hp); try (apply IHe; [lia|exact Hp]); try (apply IHs; [lia|exact Hp]).
       apply IHs; [lia|]. rewrite inside_pure_enter_fn.
-      destruct pure, (through_pure_s C), (inside_pure ctx); cbn in *; congruence.
+      destruct pure, (through_pure_s c), (inside_pure ctx); cbn in *; congruence.
     - destruct C; cbn [at_s through_pure_s] in *; cbn [sctx_size] in Hn;
         try (apply Hs; exact Hp); try (apply IHe; [lia|exact Hp]); try (apply IHs; [lia|exact Hp]). }
   split; intros C ctx; [apply (proj1 (X (ectx_size C)))|apply (proj2 (X (sctx_size C)))]; lia.
@@ -94,7 +94,7 @@ Lemma pure_assign_local kinds G op target value sp f ctx s :
   inside_pure ctx = true -> notok (r_stmt (afix kinds G f) (SAssignment op target value sp) ctx s).
 Proof.
   intros P. destruct f as [|f]; [apply notok_fuel|].
-  cbn [afix astep r_stmt]. unfold stmt_body. apply bind_notok_r. intros ? ?. rewrite P. apply notok_fail.
+  cbn [afix astep r_stmt]. unfold stmt_body. apply bind_notok_r. intros ? ?. rewrite P. apply (notok_fail KExotic sp).
 Qed.
 
 (* mutable (`:=`) declarations *)
@@ -112,7 +112,7 @@ Lemma pure_read_mut_local kinds G v sp f ctx s :
 Proof.
   intros P K. destruct f as [|f]; [apply notok_fuel|].
   cbn [afix astep r_expr]. unfold expr_body. apply bind_notok_l. cbv beta iota. unfold var_kind.
-  destruct (PositiveMap.find (N.succ_pos v) kinds) as [[]|]; [congruence| |apply notok_panicm].
+  destruct (PositiveMap.find (N.succ_pos v) kinds) as [[]|]; [congruence| |apply bind_notok_l, notok_panicm].
   rewrite (bind_ok (ret Mutable) _ s Mutable s eq_refl). rewrite P. apply notok_fail.
 Qed.
 
@@ -125,7 +125,7 @@ Lemma pure_call_local kinds G callee args sp f ctx s :
 Proof.
   intros P H. cbn [afix astep r_expr]. unfold expr_body. apply bind_notok_l. cbv beta iota.
   unfold notok, bind at 1. destruct (r_expr (afix kinds G f) callee ctx s) as [[[r fn] s']| | |] eqn:E; try discriminate.
-  specialize (H _ _ _ E). unfold bind at 1.
+  specialize (H _ _ _ eq_refl). unfold bind at 1.
   destruct (find_type fn s') as [[t s'']| | |] eqn:Et; try discriminate.
   apply find_type_inv in Et as [-> Et].
   destruct t; try discriminate.
@@ -225,3 +225,34 @@ Proof.
     apply bind_notok_l. rewrite Pc. apply notok_fail. }
   split; eapply X; eauto.
 Qed.
+
+(* ------------------------------------------------------------------ purity does NOT survive a plain `fn` annotation
+
+   impure :: fn x: int -> int do x end
+   takes_pu :: fn f: pu int -> int -> int do f(1) end
+   start :: fn do
+       y: fn int -> int = impure
+       takes_pu(y)            -- an impure function where a `pu` type is declared
+   end
+
+   (the resolved statements below are the real compiler's own, as handed to its type checker) *)
+Local Open Scope string_scope.
+Definition laundering_program : resolved :=
+(mkResolved
+  [(mkVar 0%N "impure" (mkSpan 0 1 1 1 7) true Const); (mkVar 1%N "takes_pu" (mkSpan 0 2 2 1 9) true Const); (mkVar 2%N "start" (mkSpan 0 3 3 1 6) true Const); (mkVar 3%N "== STACK BEGIN ""impure"" ==" (mkSpan 0 1 1 1 7) false Const); (mkVar 4%N "x" (mkSpan 0 1 1 14 15) false Const); (mkVar 5%N "== STACK BEGIN ""takes_pu"" ==" (mkSpan 0 2 2 1 9) false Const); (mkVar 6%N "f" (mkSpan 0 2 2 16 17) false Const); (mkVar 7%N "== STACK BEGIN ""start"" ==" (mkSpan 0 3 3 1 6) false Const); (mkVar 8%N "y" (mkSpan 0 4 4 5 6) false Mutable)]
+  [(SDefinition "impure" 0%N Const (TImplied (mkSpan 0 1 1 36 37)) (EFunction "lambda" [("x", 4%N, (mkSpan 0 1 1 14 15), (TResolved BInt (mkSpan 0 1 1 17 20)))] (TResolved BInt (mkSpan 0 1 1 24 27)) [(SStatementExpression (ERead 4%N (mkSpan 0 1 1 31 32)) (mkSpan 0 1 1 31 32))] false (mkSpan 0 1 1 11 13)) (mkSpan 0 1 1 1 7)); (SDefinition "takes_pu" 1%N Const (TImplied (mkSpan 0 2 2 51 52)) (EFunction "lambda" [("f", 6%N, (mkSpan 0 2 2 16 17), (TFn [] [(TResolved BInt (mkSpan 0 2 2 22 25))] (TResolved BInt (mkSpan 0 2 2 29 32)) true (mkSpan 0 2 2 19 21)))] (TResolved BInt (mkSpan 0 2 2 36 39)) [(SStatementExpression (ECall (ERead 6%N (mkSpan 0 2 2 43 44)) [(EInt (1)%Z (mkSpan 0 2 2 45 46))] (mkSpan 0 2 2 44 45)) (mkSpan 0 2 2 43 44))] false (mkSpan 0 2 2 13 15)) (mkSpan 0 2 2 1 9)); (SDefinition "start" 2%N Const (TImplied (mkSpan 0 6 6 4 5)) (EFunction "lambda" [] (TResolved BVoid (mkSpan 0 3 3 13 15)) [(SDefinition "y" 8%N Mutable (TFn [] [(TResolved BInt (mkSpan 0 4 4 11 14))] (TResolved BInt (mkSpan 0 4 4 18 21)) false (mkSpan 0 4 4 8 10)) (ERead 0%N (mkSpan 0 4 4 24 30)) (mkSpan 0 4 4 5 6)); (SStatementExpression (ECall (ERead 1%N (mkSpan 0 5 5 5 13)) [(ERead 8%N (mkSpan 0 5 5 14 15))] (mkSpan 0 5 5 13 14)) (mkSpan 0 5 5 5 13))] false (mkSpan 0 3 3 10 12)) (mkSpan 0 3 3 1 6))]).
+
+Theorem purity_laundering_accepted : exists fuel, typecheck fuel laundering_program = Ok tt.
+Proof. exists 60. vm_compute. reflexivity. Qed.
+
+(* for comparison: the same call with the function itself is rejected (Impurity) *)
+Definition direct_program : resolved :=
+  match laundering_program with
+  | mkResolved vars [d1; d2; SDefinition n v k t (EFunction fnm ps rt [_; SStatementExpression (ECall c [_] csp) ssp] pu fsp) dsp] =>
+    mkResolved vars [d1; d2; SDefinition n v k t
+                               (EFunction fnm ps rt [SStatementExpression (ECall c [ERead 0 (mkSpan 0 5 5 14 15)] csp) ssp] pu fsp) dsp]
+  | r => r
+  end.
+
+Example direct_rejected : typecheck 60 direct_program = Err (mkErr KImpurity (mkSpan 0 5 5 14 15)) [].
+Proof. vm_compute. reflexivity. Qed.
